@@ -17,6 +17,10 @@ FMT = {"f32": (24, 8), "f64": (53, 11)}          # (significand bits incl. hidde
 
 # ------------------------------------------------------------------ exact decoding / encoding (independent of the model)
 
+from functools import lru_cache
+
+
+@lru_cache(maxsize=1 << 20)
 def decode(t, b):
     """bit pattern -> ("nan",) | ("inf", neg) | ("fin", Fraction) ; integers -> ("fin", Fraction)."""
     if t in ("i16", "i32"):
@@ -65,6 +69,7 @@ def hexs(t, b):
     return "%0*x" % (WIDTH[t] // 4, b & ((1 << WIDTH[t]) - 1))
 
 
+@lru_cache(maxsize=1 << 20)
 def nearest_ok(t, v, out_bits):
     """Is the float pattern out_bits a correctly rounded (nearest, ties to even, overflow to inf) image of the exact
     rational v?  Checked from the definition: no neighbouring pattern is strictly closer; a tie has an even significand."""
@@ -419,7 +424,8 @@ def oracle_api(case, outs, tail):
             o = decode(ot, ob)
             po = FMT[ot][0]
             tol = slack + abs(x) * Fraction(2) ** (-po)
-            if o[0] != "fin" or abs(o[1] - x) > tol:
+            in_range = all(normal_range(t, x) for t in (eng, ot))
+            if in_range and (o[0] != "fin" or abs(o[1] - x) > tol):
                 bad.append("sample %d: %s %s -> %s %s: not the scaled value within the formats' precision" % (k, it, hexs(it, ib), ot, hexs(ot, ob)))
             elif representable(eng, v[1]) and representable(eng, x) and representable(ot, x) and o[1] != x:
                 bad.append("sample %d: %s %s -> %s %s: value representable but not passed exactly" % (k, it, hexs(it, ib), ot, hexs(ot, ob)))
@@ -437,6 +443,14 @@ def oracle_api(case, outs, tail):
     if not (lo <= tail["c"] <= hi):
         bad.append("soxr_num_clips = %d, between %d and %d samples saturate" % (tail["c"], lo, hi))
     return bad
+
+
+def normal_range(t, x):
+    """|x| within the normal range of float type t (so that relative error bounds apply), or x == 0."""
+    p, w = FMT[t]
+    bias = (1 << (w - 1)) - 1
+    a = abs(x)
+    return a == 0 or (Fraction(2) ** (1 - bias) <= a < Fraction(2) ** bias)
 
 
 def representable(t, x):
